@@ -110,6 +110,16 @@ func (g *G) Key() string {
 	case 2:
 		g.feat("key.awkward")
 		return []string{"a b", "a,b", `"q"`, "-", "a:b", "omitempty", "list", "é", "1", "0x", "a.b", "{", "'"}[r.Intn(13)]
+	case 3:
+		if g.C.LongString && r.Intn(4) == 0 {
+			g.feat("key.long")
+			n := []int{255, 256, 257, 1000, 32767}[r.Intn(5)]
+			b := make([]byte, n)
+			for i := range b {
+				b[i] = keyAlphabet[(i*7+n)%len(keyAlphabet)]
+			}
+			return string(b)
+		}
 	}
 	n := r.Range(1, 8)
 	b := make([]byte, n)
